@@ -110,7 +110,7 @@ std::string serialize(const tobject& object)
     return out.str();
 }
 
-// soft RLIMIT_AS = current virtual size + 256 MiB while corrupted streams are read (plain build only): absurd size
+// soft RLIMIT_AS = current virtual size + 4 MiB while corrupted streams are read (plain build only): absurd size
 // fields then fail with bad_alloc at once instead of zero-filling gigabytes
 static void limit_memory(bool on)
 {
@@ -128,7 +128,7 @@ static void limit_memory(bool on)
             if (std::fscanf(f, "%ld", &pages) != 1) pages = 0;
             std::fclose(f);
         }
-        lim.rlim_cur = static_cast<rlim_t>(pages) * 4096U + (rlim_t{256} << 20);
+        lim.rlim_cur = static_cast<rlim_t>(pages) * 4096U + (rlim_t{4} << 20);
     }
     else
     {
@@ -227,7 +227,7 @@ static void process(const std::string& spec, const std::string& bytes, const rea
     {
         // positions: all of them for small streams, otherwise a sample that always contains the first 64 bytes
         std::vector<size_t> positions;
-        const size_t        cap = g_thorough ? 4000 : 600;
+        const size_t        cap = g_thorough ? (ti.is_tensor ? 4000 : 1500) : ti.is_tensor ? 600 : 160;
         if (n <= cap)
         {
             for (size_t p = 0; p < n; ++p) positions.push_back(p);
@@ -410,6 +410,27 @@ static void all_tensors()
     tensors_of<uint64_t>("uint64", per_rank, max_elems);
     tensors_of<float>("float", per_rank, max_elems);
     tensors_of<double>("double", per_rank, max_elems);
+}
+
+// the 64-bit content hash is not injective: replay of the one-byte collision proved in Coq (C15_payload_refuted,
+// found with z3) on the real reader, for uint64 and for double tensors (same bit patterns)
+template <class tscalar>
+void collision_replay(const char* tname)
+{
+    const uint64_t a = 0xfde60bd381e8fe5cULL, b = 0x005f8802b261efc4ULL;
+    tensor_mem_t<tscalar, 1> tensor(2);
+    std::memcpy(tensor.data() + 0, &a, 8);
+    std::memcpy(tensor.data() + 1, &b, 8);
+    auto bytes = serialize(tensor);
+    auto other = bytes;
+    other[24]  = static_cast<char>(0x36); // first payload byte 0x5c -> 0x36
+    tensor_mem_t<tscalar, 1> read_back;
+    std::istringstream       stream(other);
+    bool                     accepted = false;
+    try { accepted = static_cast<bool>(::nano::read(stream, read_back)); } catch (const std::exception&) {}
+    const bool differs = accepted && std::memcmp(read_back.data(), tensor.data(), 16) != 0;
+    std::printf("COLLIDE %s verdict=%c differs=%d hex=%s corrupted=%s\n", tname, accepted ? 'A' : 'R', differs ? 1 : 0,
+                hex(bytes).c_str(), hex(other).c_str());
 }
 
 // ------------------------------------------------------------------------------------------------
@@ -694,6 +715,11 @@ int main(int argc, char** argv)
         std::printf("FTYPES %s\n", names.c_str());
     }
 
+    if (!g_corrupt)
+    {
+        collision_replay<uint64_t>("uint64");
+        collision_replay<double>("double");
+    }
     all_tensors();
     all_parameters();
     all_configurables();
